@@ -315,6 +315,7 @@ static int path(const char * opsfile, const char * outpath) {
 }
 
 int main(int argc, char ** argv) {
+    if (getenv("DRV_NO_ERROR_CALLBACK")) itf.error = NULL;      /* the error callback is optional: the status byte must not depend on it */
     if (argc >= 6 && !strcmp(argv[1], "explore")) { cap = atoi(argv[3]); return explore(argv[2], atol(argv[4]), argv[5]); }
     if (argc >= 6 && !strcmp(argv[1], "walk")) { cap = atoi(argv[4]); return walk(strtoul(argv[2], 0, 10), atol(argv[3]), argv[5]); }
     if (argc >= 3 && !strcmp(argv[1], "codes")) { cap = 2; return allcodes(argv[2]); }
